@@ -92,12 +92,12 @@ def h_weights(B, cls="EOF", n=4, p=2, k=2, flags=None, layout="2d", reorder=Fals
     B.eq("weights == pre-multiplied data: decomposed matrix", m1.data["input_data"], m2.data["input_data"])
 
 
-def h_coslat(B, n=4, p=4, k=2, latname="lat", flags=None, order=None, lats=(-60.0, 35.0)):
+def h_coslat(B, n=4, p=4, k=2, latname="lat", flags=None, order=None, lats=(-60.0, 35.0), lat_dtype=None):
     flags = dict(flags or {})
     p2 = p // 2
     sizes = {"time": n, latname: 2, "lon": p2}
     order = order or ("time", latname, "lon")
-    X = xr.DataArray(B.array(tuple(sizes[d] for d in order), "x"), dims=order, coords={"time": list(range(n)), latname: list(lats), "lon": XS[:p2]}, name="v_x")
+    X = xr.DataArray(B.array(tuple(sizes[d] for d in order), "x"), dims=order, coords={"time": list(range(n)), latname: (np.asarray(lats, dtype=lat_dtype) if lat_dtype else list(lats)), "lon": XS[:p2]}, name="v_x")
     w = np.sqrt(np.cos(np.deg2rad(X[latname])).clip(0, 1))
     if flags.get("standardize"):
         oracle_matrix(X, "time", True, True, B=B)
@@ -190,6 +190,8 @@ def configs(tier):
     # latitudes are degrees whatever their range: a small near-equatorial domain, descending order, the poles
     add("h_coslat", "coslat|lat|near-equatorial degrees", lats=(-1.5, 0.75))
     add("h_coslat", "coslat|lat|descending", lats=(80.0, -10.0))
+    add("h_coslat", "coslat|lat|float32 coordinate incl. the pole", lats=(90.0, 10.0), lat_dtype="float32")  # cos(float32 90 deg) is -4.4e-8
+    add("h_coslat", "coslat|lat|float32 coordinate", lats=(-45.0, 30.0), lat_dtype="float32")
     if tier == "thorough":
         add("h_coslat", "coslat|lat|pole", lats=(90.0, 0.0))
     add("h_coslat", "coslat|lat|order=lon,time,lat", order=("lon", "time", "lat"))
